@@ -88,6 +88,29 @@ def regenerate(ctx):
     return r
 
 
+def failing_declarations(errs):
+    """Names of the declarations that enclose the positions of Lean error lines (`error: F.lean:L:C: …`)."""
+    out = []
+    for e in errs:
+        m = re.match(r'error: (\S+\.lean):(\d+):\d+:', e)
+        if not m:
+            continue
+        path = os.path.join(LEAN, m.group(1))
+        try:
+            lines = open(path, encoding='utf-8').read().split('\n')[:int(m.group(2))]
+        except OSError:
+            continue
+        for l in reversed(lines):
+            d = re.match(r'\s*(?:private |protected |noncomputable )*(?:theorem|lemma|def|example|instance|abbrev)'
+                         r'\s+([^\s:({\[]+)?', l)
+            if d:
+                name = '%s:%s' % (os.path.basename(m.group(1))[:-5], d.group(1) or 'example@%s' % m.group(2))
+                if name not in out:
+                    out.append(name)
+                break
+    return out
+
+
 def build(ctx, modules, need_driver=True, gen_ok=True):
     """Build theorem modules one by one (so one broken module does not hide the others) and the
     driver.  Returns dict module -> (ok, log)."""
@@ -98,8 +121,10 @@ def build(ctx, modules, need_driver=True, gen_ok=True):
         res[m] = (rc == 0, out)
         if rc != 0:
             errs = [l for l in out.split('\n') if l.startswith('error:')]
-            ctx.broken.append(dict(kind='proof', what='Lean module %s no longer checks' % m,
-                                   detail='\n'.join(errs[:12]) or out[-1500:], module=m))
+            decls = failing_declarations(errs)
+            ctx.broken.append(dict(kind='proof', what='Lean module %s no longer checks%s' % (
+                                       m, (' (failing: %s)' % ', '.join(decls[:6])) if decls else ''),
+                                   detail='\n'.join(errs[:12]) or out[-1500:], module=m, declarations=decls))
     if need_driver:
         if not gen_ok:
             rc, out = 1, 'translator failed; generated model is stale'
@@ -238,6 +263,7 @@ def write_evidence(ctx, mod, violations):
         'traces_validated_against_impl': ctx.stats.get('traces_validated_against_impl', 0),
         'distribution': ctx.stats.get('distribution', {}),
         'translator': ctx.stats.get('translator', {}),
+        'translator_dis': ctx.stats.get('translator_dis', {}),
         'leanchecker': ctx.stats.get('leanchecker', 'not run (quick tier)'),
         'broken': ctx.broken,
         'known_findings_seen': ctx.stats.get('known_seen', []),
@@ -295,6 +321,11 @@ def run_check(ctx, mod):
     fcntl.flock(lockf, fcntl.LOCK_EX)
     try:
         gen = regenerate(ctx) if getattr(mod, 'USES_GEN', True) else True
+        if hasattr(mod, 'pre_build'):
+            # optional per-property hook, still inside the lock and before the build: further
+            # translators (tie by regeneration for hand-modelled modules); a refusal is recorded in
+            # ctx.broken by the hook, it is not by itself a violation
+            mod.pre_build(ctx)
         b = build(ctx, mod.LEAN_MODULES, gen_ok=bool(gen))
         ok_mods = [m for m in mod.LEAN_MODULES if b.get(m, (False,))[0]]
         if ok_mods:
